@@ -502,22 +502,27 @@ Fixpoint exec (clr : bool) (hs : list hop) (ps : pstate) : pstate * list cerr :=
 Definition empty_store (p : policy) : store := mkStore [] 0 0 p.
 Definition init (p : policy) : pstate := mkP [] [] (empty_store p).
 
-(* the storage as the entries see it: for each entry the payload stored under its storage_id *)
+(* the storage as the live entries see it: for each non-trash entry the payload stored under its
+   storage_id; what it should be: the serialisation of every live entry *)
 Fixpoint row_of (i : N) (r : list (N * mp)) : option mp :=
   match r with
   | [] => None
   | (j, p) :: t => if N.eqb j i then Some p else row_of i t
   end.
-Definition view (ps : pstate) : list (option mp) :=
-  map (fun e => match e_sid e with Some i => row_of i (rows (sto ps)) | None => None end) (ents ps).
-(* what it should be: the serialisation of every live (non-trash) entry, nothing for trash *)
+Definition live_view (ps : pstate) : list (option mp) :=
+  map (fun e => if is_trash e then None
+                else match e_sid e with Some i => row_of i (rows (sto ps)) | None => None end) (ents ps).
 Definition want (ps : pstate) : list (option mp) :=
   map (fun e => if is_trash e then None else pack (ser_entry e)) (ents ps).
-(* rows that no entry owns *)
-Definition owned (i : N) (es : list entry) : bool :=
-  existsb (fun e => match e_sid e with Some j => N.eqb i j | None => false end) es.
-Definition orphans (ps : pstate) : list N :=
-  filter (fun i => negb (owned i (ents ps))) (ids (rows (sto ps))).
+(* rows that no live entry owns *)
+Definition owned_live (i : N) (es : list entry) : bool :=
+  existsb (fun e => negb (is_trash e) && match e_sid e with Some j => N.eqb i j | None => false end) es.
+Definition stale (ps : pstate) : list N :=
+  filter (fun i => negb (owned_live i (ents ps))) (ids (rows (sto ps))).
+Fixpoint nodupb (l : list N) : bool :=
+  match l with [] => true | x :: r => negb (existsb (N.eqb x) r) && nodupb r end.
+Definition live_sids (es : list entry) : list N :=
+  flat_map (fun e => if is_trash e then [] else match e_sid e with Some i => [i] | None => [] end) es.
 
 (* decidable form of "storage = memory" used by vm_compute witnesses and by the harness *)
 Fixpoint mp_eqb (a b : mp) {struct a} : bool :=
@@ -564,7 +569,8 @@ Fixpoint all2 {T} (f : T -> T -> bool) (a b : list T) : bool :=
   | _, _ => false
   end.
 Definition exactb (ps : pstate) : bool :=
-  all2 omp_eqb (view ps) (want ps) && match orphans ps with [] => true | _ => false end.
+  all2 omp_eqb (live_view ps) (want ps) && match stale ps with [] => true | _ => false end
+  && nodupb (ids (rows (sto ps))) && nodupb (live_sids (ents ps)).
 
 (* ---------------------------------------------------------------- wire format of run *)
 Definition sx_z (z : Z) : sx :=
